@@ -471,9 +471,9 @@ pub fn run(ctx: &mut Ctx) -> (&'static str, String, bool) {
                 let mut r = base_rng.fork(900_000 + i);
                 let tr = [Tr::Tcp, Tr::Udp, Tr::Ws][(i % 3) as usize];
                 let compressed = (i / 3) % 2 == 0;
-                let strobe = (i / 6) % 4;
+                let strobe = if i % 4 == 3 { [4, 0, 4, 2][((i / 4) % 4) as usize] } else { (i / 6) % 5 };
                 let mut errs = vec![];
-                if let Err(e) = real_session(c, &mut r, tr, compressed, strobe, &mut p) {
+                if let Err(e) = real_session(c, &mut r, tr, compressed, strobe, i % 4 == 3, &mut p) {
                     errs.push(e);
                 }
                 (p, errs)
@@ -499,7 +499,7 @@ pub fn run(ctx: &mut Ctx) -> (&'static str, String, bool) {
     ctx.assume("cooperative single-task schedules: the read future is polled by hand under a paused-clock current-thread runtime and dropped right after a poll that returned Pending; suspension points are the scripted transport's Pending returns");
     (
         "fault_enumeration",
-        "short sessions (keep-alive at every position of 1..4(6)-frame sessions) x 6(9) readiness scripts on both halves x every single drop point (with and without a user write right after the drop) x every pair of drop points x select!-style strobes; long sessions up to 200 frames with random Pending/partial scripts and random multi-drop plans; judged against the uninterrupted session (returned packets, outgoing whole frames, byte conservation via hook); real loopback TCP / tokio UDP adaptor / WebSocket adaptor sessions with the read raced against a ticker in a select! loop (4 ticker styles), judged on returned packets and on the replies the peer received; distinct = distinct (session, drop plan)".into(),
+        "short sessions (keep-alive at every position of 1..4(6)-frame sessions) x 6(9) readiness scripts on both halves x every single drop point (with and without a user write right after the drop) x every pair of drop points x select!-style strobes; long sessions up to 200 frames with random Pending/partial scripts and random multi-drop plans; judged against the uninterrupted session (returned packets, outgoing whole frames, byte conservation via hook); real loopback TCP / tokio UDP adaptor / WebSocket adaptor sessions with the read raced against a ticker in a select! loop (5 ticker styles incl. poll-once-and-drop; a quarter of them bursts of 300-600 small frames in one segment), judged on returned packets and on the replies the peer received; distinct = distinct (session, drop plan)".into(),
         true,
     )
 }
